@@ -362,6 +362,19 @@ theorem write_id_fresh (stream0 : List Frame) (es : List Event) (s s' : State)
 /-- the wrap is real: request 2^32+1 reuses the wire id of request 1 (so the bound is needed) -/
 theorem ids_wrap_counterexample : wire 1 = wire 4294967297 := by decide
 
+/-- **ids are compared as 32-bit numbers and nothing else matters about them**: adding the same constant to every id
+(mod 2^32) preserves which id equals which.  This is what lets the harness run a Conn whose counter was preset to
+2^31 − 3 or −3 (`VerifSetCorrelationID`: the real ids cross the int32 overflow and the return to 0) and hand the model
+ids relative to that preset, calls numbered from 1 as always: every theorem above speaks about the relabelled run, and
+the relabelling loses nothing. -/
+theorem id_relabelling_sound (a b k : Nat) : wire (a + k) = wire (b + k) ↔ wire a = wire b := by
+  unfold wire; omega
+
+/-- the two boundaries the wrap family crosses: int32 overflow (2^31 − 1 → −2^31, the same 32 bits as 2^31) and the
+return to zero (−1 → 0) are ordinary successor steps of `wire` -/
+theorem wire_crosses_boundaries :
+    wire (2147483647 + 1) = 2147483648 ∧ wire (4294967295 + 1) = 0 ∧ wire 2147483648 ≠ wire 0 := by decide
+
 /-- the broker labels its frames truthfully: a frame carrying the wire id of a call carries the payload
 answering that call's request (tags).  It may still reorder, delay, drop, duplicate, invent ids. -/
 def Honest (stream0 : List Frame) (s : State) : Prop :=
@@ -794,6 +807,109 @@ theorem duplicate_answer_strands_waiters_counterexample :
     s.map (fun s => ((step s (.take 2)).isSome, (step s (.take 3)).isSome, (step s (.lone 2 1)).isSome,
                       (step s (.lone 3 1)).isSome, (step s (.yield 2 1)).isSome, (step s (.yield 3 1)).isSome)) =
       some (false, false, false, false, true, true) := by decide
+
+/-! ### Stranded waiters: what bounds the wait when the broker does NOT answer truthfully
+
+`truthful_broker_never_strands_waiters` needs the broker to answer only written requests and none twice.  Without
+that: a frame at the head of the stream that belongs to no waiting call, two or more callers waiting.  In the model the
+only events left for them are `yield` (which changes nothing) and `peekErr` (a deadline).  The theorem below makes the
+liveness assumption exact: as long as no deadline fires (`peekErr`) and no new request is written, NOTHING ever
+changes — no take, no ErrNoProgress, and `Close` does not help either (`Event.close` leaves the waiters where they are:
+what is in the read buffer can still be peeked).  The wait is bounded by the earliest deadline among the waiting calls
+and by nothing else.  In the code that bound is real only since /repo C06-D32: `Peek` is served from the buffer and never
+touches the socket, so before that fix the socket's deadline could not fire and the callers spun for ever, deadline or
+not (harness op `lv`). -/
+
+/-- a frame nobody is waiting for at the head, the read lock free, and every waiting caller has company -/
+def Stranded (s : State) : Prop :=
+  s.rlock = none ∧ ∃ f rest, s.stream = f :: rest ∧
+    (∀ j, statusOf s j = some .waiting → f.id ≠ wire j) ∧
+    (∀ j, statusOf s j = some .waiting → aloneWaiting s j = false)
+
+/-- neither a deadline nor a new request -/
+def quiet : Event → Bool
+  | .peekErr _ => false
+  | .write _ _ _ => false
+  | _ => true
+
+theorem stranded_step {s s' : State} {e : Event} (hs : Stranded s) (hq : quiet e = true) (h : step s e = some s') :
+    s'.calls = s.calls ∧ s'.stream = s.stream ∧ s'.nextSeq = s.nextSeq ∧ s'.rlock = none := by
+  obtain ⟨hl, f, rest, hst, hid, hal⟩ := hs
+  cases e with
+  | write tag ok id => simp [quiet] at hq
+  | peekErr seq => simp [quiet] at hq
+  | take seq =>
+    simp only [step] at h
+    split at h
+    · next f' rest' hrd hl' hw hs' =>
+      rw [hst] at hs'; cases hs'
+      split at h
+      · next hm => exact absurd hm (hid seq hw)
+      · cases h
+    · cases h
+  | yield seq seen =>
+    simp only [step] at h
+    split at h
+    · split at h
+      · simp only [Option.some.injEq] at h; subst h; exact ⟨rfl, rfl, rfl, hl⟩
+      · cases h
+    · cases h
+  | lone seq seen =>
+    simp only [step] at h
+    split at h
+    · next f' rest' hrd hl' hw hs' =>
+      split at h
+      · next hc => have := hal seq hw; simp [this] at hc
+      · cases h
+    · cases h
+  | finish seq o =>
+    simp only [step] at h
+    split at h
+    · next hh p g hl' _ => rw [hl] at hl'; cases hl'
+    · cases h
+  | close =>
+    simp only [step, Option.some.injEq] at h; subst h; exact ⟨rfl, rfl, rfl, hl⟩
+
+theorem stranded_preserved {s s' : State} {e : Event} (hs : Stranded s) (hq : quiet e = true)
+    (h : step s e = some s') : Stranded s' := by
+  obtain ⟨hc, hst, hn, hl⟩ := stranded_step hs hq h
+  obtain ⟨_, f, rest, hst0, hid, hal⟩ := hs
+  refine ⟨hl, f, rest, by rw [hst, hst0], ?_, ?_⟩
+  · intro j hw; apply hid j; simpa [statusOf, hc] using hw
+  · intro j hw
+    have hw0 : statusOf s j = some .waiting := by simpa [statusOf, hc] using hw
+    have := hal j hw0
+    simpa [aloneWaiting, statusOf, hc, hn] using this
+
+/-- **stranded_waiters_wait_for_a_deadline** — from a stranded state, whatever the callers, the application (`close`)
+and the scheduler do, as long as no deadline fires and no new request is written every call stays exactly where it
+is: the waiting calls keep waiting.  Only `peekErr` gets them out. -/
+theorem stranded_waiters_wait_for_a_deadline : ∀ (es : List Event) (s s' : State), Stranded s →
+    es.all quiet = true → runFrom s es = some s' → s'.calls = s.calls ∧ Stranded s' := by
+  intro es
+  induction es with
+  | nil => intro s s' hs _ h; simp [runFrom] at h; subst h; exact ⟨rfl, hs⟩
+  | cons e es ih =>
+    intro s s' hs hq h
+    simp only [List.all_cons, Bool.and_eq_true] at hq
+    simp only [runFrom] at h
+    split at h
+    · cases h
+    · next s1 h1 =>
+      have hc := (stranded_step hs hq.1 h1).1
+      obtain ⟨hc', hs'⟩ := ih s1 s' (stranded_preserved hs hq.1 h1) hq.2 h
+      exact ⟨hc'.trans hc, hs'⟩
+
+/-- and a deadline does get them out: `peekErr` is enabled for every waiting caller of a stranded state, ends that call
+with an error and kills the read side, after which the others can only fail too (`no_take_after_read_failure`) -/
+theorem deadline_ends_the_wait (s : State) (hs : Stranded s) (j : Nat) (hw : statusOf s j = some .waiting) :
+    ∃ s', step s (.peekErr j) = some s' ∧ statusOf s' j = some (.done .err) ∧ s'.rdead = true := by
+  obtain ⟨hl, _⟩ := hs
+  refine ⟨{ s with calls := setStatus s j (.done .err), closed := true, rdead := true }, by simp [step, hl, hw], ?_, rfl⟩
+  simp only [statusOf, setStatus, ↓reduceIte] at hw ⊢
+  cases hc : s.calls j with
+  | none => simp [hc] at hw
+  | some c => simp
 
 /-! ## Part 2 — pooled connections of a Transport -/
 
@@ -1318,7 +1434,9 @@ def waitResponseModelRow (sc : List String) : List String :=
   let pf := flag sc "peekFailed"; let im := flag sc "idMatches"; let al := flag sc "alone"
   let fid := if im then 1 else 7
   let pre : List Event := if al then [.write 10 true 1] else [.write 10 true 1, .write 20 true 2]
-  let ev : Event := if pf then .peekErr 1 else if im then .take 1 else if al then .lone 1 7 else .yield 1 7
+  -- somebody else's frame at the head and this call's deadline has passed: the wait ends like a failed Peek (C06-D32)
+  let dp := flag sc "deadlinePassed"
+  let ev : Event := if pf then .peekErr 1 else if im then .take 1 else if al then .lone 1 7 else if dp then .peekErr 1 else .yield 1 7
   match run [⟨fid, 0⟩] pre with
   | none => ["model: no such state"]
   | some s0 =>
@@ -1328,7 +1446,7 @@ def waitResponseModelRow (sc : List String) : List String :=
       let st := statusOf s1 1
       ["lock", "peek"] ++
       (match st with | some (.reading _ _) => ["skip"] | _ => []) ++
-      (if st == some (.done .err) && !pf then ["noProgress"] else []) ++
+      (if st == some (.done .err) && ev == .lone 1 7 then ["noProgress"] else []) ++
       (if s1.closed then ["close"] else []) ++
       (if s1.rlock.isNone then ["unlock"] else []) ++
       (if st == some .waiting then ["loop"] else []) ++ ["leave"]
